@@ -20,7 +20,7 @@
 From Coq Require Import List ZArith Bool String.
 From ApiFu Require Val.Values Val.CoerceModel Val.CoerceSpec Val.CoerceCheck.
 From ApiFu Require Import Base.Sexp Cost.CostModel Cost.CostSpec Cost.CostArgs Cost.CostTrace.
-From ApiFu Require Cost.CostArgsProofs Cost.CostC04Usage Val.BridgeC04 Val.BridgeC04Proofs Vld.ValidatorModel Vld.ProofsTypeInfoValues.
+From ApiFu Require Cost.CostArgsProofs Cost.CostC04Usage Cost.CostProj Val.BridgeC04 Val.BridgeC04Proofs Vld.ValidatorModel Vld.ProofsTypeInfoValues.
 Import ListNotations.
 Open Scope string_scope.
 Open Scope Z_scope.
@@ -820,6 +820,14 @@ Definition c04_nodes_ok (E : Values.env) (defs : list Values.vardef) (frs : list
   && forallb (fun d => CoerceModel.type_known E (Values.vd_type d)) defs
   && forallb (fun f => c04_node_ok E f && c04_usage_ok E defs f) (reachable_fields frs body).
 
+(** C04's whole ValidateDocument model on the single-field projection of the request at every
+    reachable field selection that is given arguments ([CostC04Proj.projection_accepted]) *)
+Definition projections_ok (E : Values.env) (defs : list Values.vardef) (frs : list (bytes * anode ctxT)) (body : anode ctxT) : bool :=
+  forallb (fun f => match af_args f with
+                    | [] => true
+                    | _ => CostProj.projection_accepted ctxT E dt0 defs f
+                    end) (reachable_fields frs body).
+
 Definition request_facts (E : Values.env) (defs : list Values.vardef) (frs : list (bytes * anode ctxT)) (body : anode ctxT) : bool :=
   CoerceSpec.env_ok E
   && negb (CoerceModel.has_dup (map Values.vd_name defs))
@@ -931,6 +939,12 @@ Definition check (c : sexp) : sexp :=
                                              | None => false
                                              end
                       then v_mismatch "validated-document-fails-c04-node-checks" []
+                      else if (std =? 0) && match field1 "proj" l with Some b => match as_bool b with Some false => false | _ => true end | None => true end
+                                    && match chosen_op ctxT aops opname with
+                                             | Some ao => negb (projections_ok E (ao_vardefs ao) afrs (ao_body ao))
+                                             | None => false
+                                             end
+                      then v_mismatch "c04-rejects-a-projection-of-a-validated-document" []
                       else if match obs_calls, o with
                               | Some cs, Obs _ _ _ _ => negb (calls_match (snd mt0) cs)
                               | _, _ => false
@@ -944,7 +958,12 @@ Definition check (c : sexp) : sexp :=
                               ++ (if existsb (sexp_exists (is_field_with is_gen)) body then ["list-or-object-argument"] else [])
                               ++ (match xvars with [] => [] | _ => ["list-or-object-variable-value-given"] end)
                               ++ (if (std =? 0) && match chosen_op ctxT aops opname with Some _ => true | None => false end
-                                  then ["theorem-hypotheses-hold"; "c04-node-checks-silent"] else [])
+                                  then ["theorem-hypotheses-hold"; "c04-node-checks-silent"] ++
+                                       (match field1 "proj" l with
+                                        | Some b => match as_bool b with Some false => [] | _ => ["c04-accepts-every-projection"] end
+                                        | None => ["c04-accepts-every-projection"]
+                                        end)
+                                  else [])
                               ++ (match field1 "varshape" l with
                                   | Some (SSym sh) =>
                                       if String.eqb sh "map" then []
